@@ -2,7 +2,7 @@
 Helper lemmas for C18/B1–B3: the loop invariants of `npmRequirements` and the
 characterisation of the store after its single write.
 -/
-import DepsDev.Model.Resolve.ApiClient
+import DepsDev.Proofs.C18Flatten
 
 namespace DepsDev.Proofs.C18
 open DepsDev
@@ -283,9 +283,9 @@ theorem buildAllDeps_invA {root : VersionKey} {reqs : NpmReqs} {all : AllDeps}
   · rcases i.entries k acc hl with h1 | ⟨x, hx, r⟩
     · exact Or.inl h1
     · rcases hx with hx | hx
-      · exact Or.inr ⟨x, by simpa [sortBundled, List.mem_mergeSort] using hx, r⟩
+      · exact Or.inr ⟨x, by simpa [sortBundled, mem_stableSort] using hx, r⟩
       · exact hx.elim
-  · exact i.present b (Or.inl (by simpa [sortBundled, List.mem_mergeSort] using hb))
+  · exact i.present b (Or.inl (by simpa [sortBundled, mem_stableSort] using hb))
 
 /-- the responses on which B1/B2 are exact: no two bundle entries share a mangled name
 (distinct installation paths of well-formed names have distinct mangled names). -/
@@ -293,7 +293,7 @@ def KeysNodup (root : VersionKey) (reqs : NpmReqs) : Prop := (reqs.bundled.map (
 
 theorem sortBundled_keysNodup {root : VersionKey} {reqs : NpmReqs} (h : KeysNodup root reqs) :
     ((sortBundled reqs.bundled).map (mangledOf root)).Nodup :=
-  (List.Perm.map _ (List.mergeSort_perm _ _)).nodup_iff.mpr h
+  (List.Perm.map _ (stableSort_perm _ _)).nodup_iff.mpr h
 
 theorem buildAllDeps_parentInv {root : VersionKey} {reqs : NpmReqs} {all : AllDeps}
     (h : buildAllDeps root reqs = some all) (hnd : KeysNodup root reqs) :
@@ -301,7 +301,7 @@ theorem buildAllDeps_parentInv {root : VersionKey} {reqs : NpmReqs} {all : AllDe
   have p := processBundles_parentInv h (invA_init root _) (sortBundled_keysNodup hnd)
     (fun _ _ _ hx => hx.elim) (fun _ hb => hb.elim)
   intro b hb
-  exact p b (Or.inl (by simpa [sortBundled, List.mem_mergeSort] using hb))
+  exact p b (Or.inl (by simpa [sortBundled, mem_stableSort] using hb))
 
 /-- B1 on `allDeps`, any response: every listed bundle has an entry under its mangled
 name, Concrete, whose version and origin are those of a listed bundle with that
